@@ -76,6 +76,16 @@ def decodeNextWith {α} (items : List Bytes) (f : Bytes → Res α) : Res (α ×
     | .err => .err
     | .panic => .panic
 
+/-- The slices handed to the callbacks when `decode_next_with` is called once per callback and the caller goes on
+after a refusal: the item is taken off the queue *before* the callback runs, so the callback's answer cannot
+influence what the next call is handed. -/
+def handed {α} : List Bytes → List (Bytes → Res α) → List Bytes
+  | it :: rest, _ :: fs => it :: handed rest fs
+  | _, _ => []
+
+/-- the queue a `decode_next_with` call leaves behind, whatever its callback answers -/
+def queueAfter (items : List Bytes) : List Bytes := items.tail
+
 /-- `SszEncoder` driven with already-encoded items -/
 def encodeItemsGo : List Reg → List Bytes → Enc → Enc
   | r :: rs, it :: its, e => encodeItemsGo rs its (e.append (match r with | .fixed _ => true | .var => false) it)
